@@ -65,11 +65,36 @@ func init() {
 				// the loop ranges over the registered protocols
 				rng := false
 				for _, l := range Loops(cp) {
-					if s := loopSource(l.Header); s != nil && Desc(s) == "P0.protocols" {
+					if s := loopSource(l.Header); s != nil && Desc(s) == "P0.protocols" && l.Kind == "range" {
+						// a range from the first element; the flag stays false only
+						// by running off the end of the list (the head's exit edge)
 						rng = true
+						n := 0
+						for _, c := range Sites(cp, `^invoke:pkg/generator\.Protocol\.IsExecuting$`, false) {
+							n++
+							if !l.Blocks[c.Block()] || !strings.HasPrefix(Desc(c.Common().Value), "P0.protocols[") {
+								rng = false
+							}
+						}
+						if n != 1 {
+							rng = false
+						}
+						for _, b := range cp.Blocks {
+							for _, in := range b.Instrs {
+								phi, isPhi := in.(*ssa.Phi)
+								if !isPhi || l.Blocks[b] {
+									continue
+								}
+								for i, e := range phi.Edges {
+									if cb, isC := constBool(e); isC && !cb && b.Preds[i] != l.Header {
+										rng = false
+									}
+								}
+							}
+						}
 					}
 				}
-				r.Cond(rng, "C45.decision", FnName(cp)+"#all-protocols", cp.Pos(), "every registered protocol is consulted")
+				r.Cond(rng, "C45.decision", FnName(cp)+"#all-protocols", cp.Pos(), "every registered protocol is consulted: a range over the whole list from its first element, left early only on a true IsExecuting()")
 			}
 			if st := r.MustFn("C45.stop-resume", gp, "Scheduler.stop"); st != nil {
 				var stateStore, clear *ssa.Store
